@@ -106,6 +106,31 @@ func NewWebApp(c WebCfg) *WebApp {
 		json.NewEncoder(w).Encode(map[string]any{"user": id.UserName(), "authenticated": id.Authenticated(), "session": id.SessionId(),
 			"access_token": at, "auth_time": id.AuthTime().UnixNano(), "domain": id.Domain(), "email": id.Email(), "display": id.DisplayName()})
 	})
+	// harness routes: store an identity whose every field carries a distinct value / report every field of the
+	// identity the middleware restored
+	r.HandleFunc("/verif-set", func(w http.ResponseWriter, r *http.Request) {
+		id := identity.FromRequestCtx(r)
+		q := r.URL.Query()
+		id.SetUserName(q.Get("user"))
+		id.SetDisplayName("Display " + q.Get("user"))
+		id.SetDomain("dom-" + q.Get("user"))
+		id.SetEmail(q.Get("user") + "@mail.example")
+		id.SetAuthenticated(q.Get("auth") == "1")
+		id.SetAuthTime(time.Unix(1700000000, 0).UTC())
+		id.SetExpiry(time.Unix(1700003600, 0).UTC())
+		id.SetAttribute("custom", "value-"+q.Get("user"))
+		id.SetAttribute(identity.AttrAccessToken, "at-"+q.Get("user"))
+		if err := web.SaveSessionIdentity(r, w, id); err != nil {
+			w.WriteHeader(500)
+		}
+	})
+	r.HandleFunc("/verif-get", func(w http.ResponseWriter, r *http.Request) {
+		id := identity.FromRequestCtx(r)
+		custom, _ := id.GetAttribute("custom").(string)
+		at, _ := id.GetAttribute(identity.AttrAccessToken).(string)
+		json.NewEncoder(w).Encode(map[string]any{"user": id.UserName(), "display": id.DisplayName(), "domain": id.Domain(), "email": id.Email(), "authenticated": id.Authenticated(),
+			"auth_time": id.AuthTime().Unix(), "expiry": id.Expiry().Unix(), "custom": custom, "access_token": at, "session": id.SessionId()})
+	})
 	return &WebApp{Router: r, OIDC: o, IdP: idp}
 }
 
